@@ -5,6 +5,7 @@
   payloads in an accepted trace, which is how "every schedule" and "every table content" are quantified.
 -/
 import ChessVerif.Lemmas.Trace
+import ChessVerif.Lemmas.TracePV
 namespace Chess.Props
 
 /-- C05 (bestmove): every accepted trace over a non-empty root move list ends with EXACTLY ONE bestmove, and it
@@ -16,7 +17,6 @@ theorem C05_bestmove (root : Position) (R : List Nat) (t : List Ev) (s : AState)
   split at h
   · cases h
   · rename_i s1 hrun
-    split at h <;> try (cases h)
     split at h <;> try (cases h)
     split at h <;> try (cases h)
     rename_i hlen
@@ -36,12 +36,24 @@ theorem C05_bestmove_generated (root : Position) (t : List Ev) (s : AState)
     ∃ m, s.bestMoves = [m] ∧ m ∈ genMoves root :=
   C05_bestmove root (genMoves root) t s h hne
 
-/-- the full statement for principal variations (kept visible): every pv reported at the end of an iteration is a
-    line of generated moves from the root.  The acceptor re-checks it on every run (`pvsModelLegal`); the proof by
-    invariant over the automaton is stated in DESIGN §6 C05 as the next obligation. -/
-def C05_pv_legal_Statement : Prop :=
-  ∀ (root : Position) (t : List Ev) (s : AState), acceptTrace root (genMoves root) t = .ok s →
-    ∀ pv, pv ∈ s.reportedPVs → legalLine root pv = true
+/-- C05 (principal variations): every pv that an accepted trace reports at the end of an iteration is a line of
+    GENERATED moves from the root — each move is generated in the position where it is played — whatever stops, table
+    hits (TT_CUT / PV_SET payloads are arbitrary) and re-searches occurred.  Proved by the invariant `PVInv` over the
+    automaton (Lemmas/TracePV.lean): a node's pv slot, once cleared by that visit, always holds a legal line from the
+    node's position; PV_ADD may only prepend the move under which a deeper node was actually visited. -/
+theorem C05_pv_legal (root : Position) (R : List Nat) (t : List Ev) (s : AState)
+    (h : acceptTrace root R t = .ok s) : ∀ pv, pv ∈ s.reportedPVs → legalLine root pv = true := by
+  unfold acceptTrace at h
+  split at h
+  · cases h
+  · rename_i s1 hrun
+    split at h <;> try (cases h)
+    split at h <;> try (cases h)
+    have inv := run_pv root t (initState root R) s 0 hrun (init_pv root R)
+    intro pv hpv
+    have := inv.reported pv hpv
+    rw [inv.rootc] at this
+    exact this
 
 /-- non-vacuity: the shortest accepted trace — the stop is seen at once, no iteration completes, the fallback
     root move is reported -/
